@@ -1,0 +1,26 @@
+//! Verification hook (compiled only with `--cfg pricelevel_verif`): named pause points at which a
+//! replay harness can run other operations, to force one specific interleaving on the real code.
+//! With the cfg off nothing of this exists.
+use std::sync::Mutex;
+
+type Hook = Box<dyn Fn(&str) + Send + Sync>;
+
+static HOOK: Mutex<Option<Hook>> = Mutex::new(None);
+
+/// Installs (or clears) the callback invoked at every pause point.
+pub fn set_hook(hook: Option<Hook>) {
+    *HOOK.lock().unwrap() = hook;
+}
+
+/// Called by instrumented code; runs the installed callback, if any, with the hook temporarily
+/// removed so that operations performed by the callback do not recurse into it.
+pub fn pause(point: &str) {
+    let taken = HOOK.lock().unwrap().take();
+    if let Some(hook) = taken {
+        hook(point);
+        let mut slot = HOOK.lock().unwrap();
+        if slot.is_none() {
+            *slot = Some(hook);
+        }
+    }
+}
